@@ -74,7 +74,7 @@ def generate(R, tier):
             op = R.choice(["select", "delete", "reorder", "lexsort", "sort", "group", "ungroup", "is_grouped"])
         else:
             op = R.choice(OPS_ALL)
-        steps.append({"op": op, "axis": a, "argform": R.choice(["int", "negint", "npint", "slice", "list", "ndarray", "mask", "empty"]), "unnamed": R.random() < 0.15,
+        steps.append({"op": op, "axis": a, "argform": R.choice(["int", "negint", "npint", "slice", "list", "ndarray", "mask", "empty"]), "unnamed": R.random() < 0.15, "override": R.random() < 0.2,
                       "a": [R.randrange(1000) for _ in range(6)], "k": R.choice([1, 1, 2, 3]), "pick": R.randrange(4),
                       "negaxis": R.random() < 0.25, "first": R.random() < 0.7})
     if key == "DensePhasedGenotypeMatrix":
@@ -338,6 +338,18 @@ def execute(sc):
                 for e in new:
                     model.ent[(axis, e)]["taxa"] = None
                 fault("operand_without_names")
+            okw_extra = {}
+            if st.get("override") and not isinstance(opnd, tuple) and op in ("insert", "adjoin") and not (axis == "taxa" and mm.is_square(key)):
+                # an explicit label array passed next to a labelled operand takes precedence over the operand's own labels
+                cands = [nm for nm in mm.LABELS[axis] if sc["cfg"]["present"].get(nm, True)
+                         and not (kind != "float" and nm in ("taxa", "vrnt_name", "trait"))]
+                if cands:
+                    nm = cands[st["a"][2] % len(cands)]
+                    vals = [mm.make_label(R, axis, nm, 900 + e, sc["cfg"]) for e in new]
+                    okw_extra[nm] = mm._larr(nm, vals)
+                    for e, v in zip(new, vals):
+                        model.ent[(axis, e)][nm] = v
+                    fault("explicit_label_override")
             if op == "insert":
                 if st["argform"] in ("int", "negint", "npint", "slice", "mask", "empty") or k == 1 and st["a"][3] % 2:
                     pos = st["a"][0] % (n + 1)
@@ -361,14 +373,14 @@ def execute(sc):
                             out.append(model.ids[axis][i])
                     expect[axis] = out
                     spec = ("list", poss)
-                ov, okw = (opnd[1], opnd[2]) if isinstance(opnd, tuple) else (operand, {})
+                ov, okw = (opnd[1], opnd[2]) if isinstance(opnd, tuple) else (operand, dict(okw_extra))
                 forms = [("spec", False, lambda x: getattr(x, "insert_" + axis)(arg, ov, **okw)),
                          ("gen", False, lambda x: x.insert(arg, ov, axis=axi, **okw)),
                          ("spec-mut", True, lambda x: getattr(x, "incorp_" + axis)(arg, ov, **okw)),
                          ("gen-mut", True, lambda x: x.incorp(arg, ov, axis=axi, **okw))]
             elif op == "adjoin":
                 expect[axis] = model.ids[axis] + new
-                ov, okw = (opnd[1], opnd[2]) if isinstance(opnd, tuple) else (operand, {})
+                ov, okw = (opnd[1], opnd[2]) if isinstance(opnd, tuple) else (operand, dict(okw_extra))
                 forms = [("spec", False, lambda x: getattr(x, "adjoin_" + axis)(ov, **okw)),
                          ("gen", False, lambda x: x.adjoin(ov, axis=axi, **okw)),
                          ("spec-mut", True, lambda x: getattr(x, "append_" + axis)(ov, **okw)),
